@@ -158,7 +158,7 @@ def gen(cs, ndates=(3, 8), nops=(1, 6), fi=False):
                 day.append({"op": "read", "node": path, "prop": rng.choice(["value", "weight", "price", "prices", "values", "positions", "cash", "fees", "flows", "outlays"])})
         ops.append(day)
     return {"tickers": tickers, "prices": prices.tolist(), "start": "2020-01-01", "freq": "B", "tree": kids, "integer": integer, "comm": comm,
-            "bidoffer": None if bo is None else bo.tolist(), "capital": capital, "ops": ops, "late": late, "zero": zero, "cs": cs}
+            "bidoffer": None if bo is None else bo.tolist(), "capital": capital, "ops": ops, "late": late, "zero": zero, "cs": cs, "attach": rng.random() < 0.2}
 
 
 # ------------------------------------------------------------------ construction
@@ -174,6 +174,18 @@ def _build_children(kids):
     return out
 
 
+def _attach(parent, kids):
+    """top-down assembly: sub-strategies created with parent=, securities added to the live node"""
+    for k in kids:
+        if k["type"] == "strat":
+            s = Strategy(k["name"], [], parent=parent)
+            _attach(s, k["children"])
+        elif k["type"] == "sec":
+            parent._add_children([Security(k["name"], multiplier=k["mult"])], dc=False)
+        else:
+            parent._add_children([k["name"]], dc=False)
+
+
 def frames_of(spec):
     idx = pd.date_range(spec["start"], periods=len(spec["prices"]), freq=spec["freq"])
     data = pd.DataFrame(np.array(spec["prices"], dtype=float), index=idx, columns=spec["tickers"])
@@ -185,7 +197,11 @@ def frames_of(spec):
 
 def build(spec):
     data, kw = frames_of(spec)
-    root = Strategy("root", [], children=_build_children(spec["tree"]) or None)
+    if spec.get("attach"):
+        root = Strategy("root", [])
+        _attach(root, spec["tree"])
+    else:
+        root = Strategy("root", [], children=_build_children(spec["tree"]) or None)
     root.use_integer_positions(spec["integer"])
     comm = ins.Comm(spec["comm"])
     if spec["comm"] != "none":
@@ -209,7 +225,7 @@ def signature(spec):
         return sorted(repr(k["type"] if k["type"] != "strat" else ("strat", tuple(shape(k["children"])))) for k in kids)
 
     kinds = sorted({o["op"] for day in spec["ops"] for o in day} | {"batch:" + x["op"] for day in spec["ops"] for o in day if o["op"] == "batch" for x in o["ops"]})
-    return [repr(shape(spec["tree"])), spec["integer"], spec["comm"], spec["bidoffer"] is not None, kinds, len(spec["ops"])]
+    return [repr(shape(spec["tree"])), spec["integer"], spec["comm"], spec["bidoffer"] is not None, kinds, len(spec["ops"]), bool(spec.get("attach"))]
 
 
 class Stop(Exception):
